@@ -17,6 +17,7 @@ pub mod c18;
 pub mod c19;
 pub mod c20;
 pub mod backend;
+pub mod cli;
 pub mod common;
 pub mod corecase;
 
